@@ -17,7 +17,7 @@
 
 import os
 
-from drivers import mdexec, strace_kill
+from drivers import audit_driver, mdexec, strace_kill
 from harness import common, mdtrace, tlc
 
 from . import mdshared as S
@@ -264,6 +264,34 @@ def main(tier):
                     rep.violation("property_violated_on_trace" if v["bad"] != "-" else "trace_rejected",
                                   {"case": j["case"], "kill_at": [j["syscall"], j["when"], j["kind"]], "matched_events": v["l"], "of": v["n"], "model_pc": v["pc"], "violated_property": v["bad"],
                                    "next_event_not_explained": ev[v["l"]] if v["l"] < len(ev) else None, "segments": o["segments"]}, rejected_at=(ev[v["l"]] if v["l"] < len(ev) else {}).get("name"), violated=v["bad"], **fields)
+        # ---- 5b. state-completeness audit: every attribute of engine and molecule one step after a resume ----------
+        acad = dict(data=1, coordinates=1, velocities=0, forces=0, na=0, tdm=0)
+        abase = dict(molid=[0], steps=5, ckpt=2, cad=acad, xyz=0, print=0, stub=False, params={"scf_eps": 1.0e-9}, ckpt_step=2, tol=TOL)
+        acases = [dict(abase, engine="basic", system="h2o_h2"), dict(abase, engine="langevin", system="h2o_h2", damp=5.0), dict(abase, engine="xl", system="h2o", k=4),
+                  dict(abase, engine="xl", system="h2o_h2", k=3, damp=20.0), dict(abase, engine="ksa", system="h2o", k=3),
+                  dict(abase, engine="fssh", system="h2co", params=FSSH, cad=dict(acad, na=1)), dict(abase, engine="basic", system="h2co", params=EXC),
+                  dict(abase, engine="xl", system="h2co", params=EXC, k=4)]
+        if tier == "thorough":
+            acases += [dict(abase, engine="xl", system="h2o", k=k, ckpt=ck, ckpt_step=ck, steps=ck + 3) for k in (5, 6, 9) for ck in (1, 3)]
+            acases += [dict(abase, engine="fssh", system="h2co_2", molid=[0, 1], params=FSSH, cad=dict(acad, na=2), damp=30.0), dict(abase, engine="basic", system="h2o_h2", run_kwargs={"scale_vel": [2, 250.0]})]
+        for n, c in enumerate(acases):
+            c["workdir"] = os.path.join(scratch, "audit_%02d" % n)
+        ares = common.run_forked(acases, audit_driver.audit, timeout=2400)
+        audit_info = {"runs": len(acases), "attributes_compared": 0, "clean": 0}
+        # caches of the last full SCF evaluation: written by the t=0 SCF of a fresh XL run, never read by the XL step
+        xl_caches = {"mol._gam", "mol._parnuc", "mol.w"}
+        for c, rr in zip(acases, ares):
+            fields = dict(engine=c["engine"], excited="excited_states" in c.get("params", {}), damped=c.get("damp") is not None)
+            if not rr.get("ok") or "error" in rr["result"]:
+                rep.machinery("state audit failed: " + str(rr.get("error") or rr["result"].get("error"))[:600])
+                continue
+            o = rr["result"]
+            audit_info["attributes_compared"] += o["attrs"]
+            diffs = [d for d in o["diffs"] if not (c["engine"] in ("xl", "ksa") and d["attr"] in xl_caches) and d["attr"] != "mol.seqm_parameters"]
+            if diffs:
+                rep.violation("engine_state_not_restored", {"case": {k: v for k, v in c.items() if k != "workdir"}, "attributes": diffs[:12]}, attr=diffs[0]["attr"], **fields)
+            else:
+                audit_info["clean"] += 1
         # ---- 6. executions of the repository's own MD tests (thorough) -----------------------------
         repo_info = {"segments": 0, "accepted": 0}
         if tier == "thorough":
@@ -297,7 +325,7 @@ def main(tier):
             "traces_validated_against_impl": len(verdicts) + len(rverdicts) + len(sk_traces) + repo_info["segments"],
             "traces_accepted": n_acc + rn_acc + sk_info["accepted"],
             "syscall_level_kills": sk_info,
-            "repository_test_executions": repo_info,
+            "repository_test_executions": repo_info, "state_completeness_audit": audit_info,
             "tierB_real_es": {"runs": len(rjobs), "accepted": rn_acc, "tolerance": TOL, "largest_deviation_from_reference": maxdev,
                               "engines": sorted({c["engine"] + ("+exc" if "excited_states" in c.get("params", {}) else "") for c, _ in rjobs})},
             "samples": samples or [{"note": "no accepted trace"}],
@@ -318,6 +346,7 @@ def main(tier):
                 "tier A uses a stub electronic structure whose published density depends on the density passed in, so unrestored electronic state shows up in the values",
                 "row values compared bitwise with an uninterrupted reference run of the same seed",
                 "the model follows the first molid's files; other molids are compared with it at the end",
+                "state audit: all attributes of the engine and molecule objects one loop iteration after a resume against the uninterrupted run at the same step (tolerance 1e-6); segment bookkeeping, writers, settings dicts and the SCF caches an XL step never reads are exempt",
             ],
         )
     finally:
